@@ -217,5 +217,11 @@ int main() {
   util::FilePiece in(0, NULL, &std::cerr);
 
   ProcessGigaword(in, std::cout);
+  // std::cout never throws: a failed write only shows in the stream state.
+  std::cout.flush();
+  if (!std::cout) {
+    std::cerr << "Error writing to stdout\n";
+    return 1;
+  }
   return 0;
 }
